@@ -64,6 +64,7 @@ type world struct {
 	toGate      chan []byte
 
 	shows   int       // cursor-show sequences seen (the end of a redisplay)
+	atShow  bool      // the output so far ends with one: no redisplay is in progress
 	lastOut time.Time // last output of the library
 	height  int
 }
@@ -77,10 +78,10 @@ func (w *world) resize(width int) {
 	unix.IoctlSetWinsize(int(w.slave.Fd()), unix.TIOCSWINSZ, &unix.Winsize{Row: uint16(w.height), Col: uint16(width)})
 }
 
-func (w *world) showsAndQuiet() (int, time.Duration) {
+func (w *world) showsAndQuiet() (int, bool, time.Duration) {
 	w.mu.Lock()
 	defer w.mu.Unlock()
-	return w.shows, time.Since(w.lastOut)
+	return w.shows, w.atShow, time.Since(w.lastOut)
 }
 
 func (w *world) reset(width, height int) {
@@ -116,6 +117,7 @@ func (w *world) pump() {
 		data := []byte(strings.ReplaceAll(string(buf[:n]), "\r\r\n", "\r\n"))
 		w.out = append(w.out, data...)
 		w.shows += strings.Count(string(data), "\x1b[?25h")
+		w.atShow = strings.HasSuffix(string(data), "\x1b[?25h")
 		w.lastOut = time.Now()
 		w.vte.Write(data)
 		w.xt.Write(data)
@@ -254,7 +256,7 @@ func (g *gate) Read(p []byte) (int, error) {
 					n = 3
 				}
 				g.w.resize(width)
-				mark, _ := g.w.showsAndQuiet()
+				mark, _, _ := g.w.showsAndQuiet()
 				for k := 0; k < n; k++ {
 					syscall.Kill(os.Getpid(), syscall.SIGWINCH)
 				}
@@ -263,7 +265,8 @@ func (g *gate) Read(p []byte) (int, error) {
 					deadline := time.Now().Add(3 * time.Second)
 					for time.Now().Before(deadline) {
 						time.Sleep(10 * time.Millisecond)
-						if sh, quiet := g.w.showsAndQuiet(); sh > mark && quiet > 40*time.Millisecond {
+						// (a burst is coalesced into one to three redisplays: wait until none is in progress)
+						if sh, atShow, quiet := g.w.showsAndQuiet(); sh > mark && atShow && quiet > 120*time.Millisecond {
 							return
 						}
 					}
